@@ -102,10 +102,12 @@ package tagstree
 //@   safe
 //@   loop 1:
 //@     invariant id % 16 == 0 && id <= uint32(len(ttr.metadataBuf))
+//@     decreases len(ttr.metadataBuf) - int(id)
 //@   loop 2:
 //@     invariant treeOffset <= uint32(len(tagTreeBuf))
 //@   loop 3:
 //@     invariant i <= tsidCount && tsidCount <= 65535 && uint64(treeOffset) + uint64(tsidCount - i) * 8 <= uint64(len(tagTreeBuf))
+//@     decreases int(tsidCount) - int(i)
 //@ end
 //@ func (*TagTreeReader).getValueIteratorForMetric
 //@   props C18
@@ -113,6 +115,7 @@ package tagstree
 //@   safe
 //@   loop 1:
 //@     invariant id % 16 == 0 && id <= uint32(len(ttr.metadataBuf))
+//@     decreases len(ttr.metadataBuf) - int(id)
 //@   ensures [iterator-starts-inside-its-buffer] implies(result0 != nil, result0.treeOffset == 0 && len(result0.tagTreeBuf) <= 4294967295)
 //@ end
 //@ func (*TagValueIterator).next
@@ -124,6 +127,7 @@ package tagstree
 //@     invariant tvi.treeOffset <= uint32(len(tvi.tagTreeBuf))
 //@   loop 2:
 //@     invariant i <= tsidCount && tsidCount <= 65535 && len(matchingTSIDs) == int(tsidCount) && uint64(tvi.treeOffset) + uint64(tsidCount - i) * 8 <= uint64(len(tvi.tagTreeBuf))
+//@     decreases int(tsidCount) - int(i)
 //@ end
 //@ func (*TagValueIterator).NextTagValue
 //@   props C18
@@ -132,6 +136,7 @@ package tagstree
 //@   ensures [cursor-stays-inside-the-buffer] tvi.treeOffset <= uint32(len(tvi.tagTreeBuf))
 //@   loop 1:
 //@     invariant tvi.treeOffset <= uint32(len(tvi.tagTreeBuf))
+//@     decreases len(tvi.tagTreeBuf) - int(tvi.treeOffset)
 //@ end
 //@ func (*TagTreeReader).getHashedMetricNames
 //@   props C18
@@ -139,6 +144,7 @@ package tagstree
 //@   safe
 //@   loop 1:
 //@     invariant index % 16 == 0 && index >= 0 && index <= len(ttr.metadataBuf)
+//@     decreases len(ttr.metadataBuf) - index
 //@ end
 
 // C08 (the tag values reported are exactly those ingested) and C18: the
@@ -164,6 +170,7 @@ package tagstree
 //@     ghostset ghost(0, "ttEntries") = ghost(0, "ttEntries") + 1
 //@   loop 1:
 //@     invariant [the-cursor-advances-entry-by-entry] ghost(0, "ttEntries") >= 0 && ghost(0, "ttEntries") <= 268435455 && id == uint32(16 * ghost(0, "ttEntries")) && ttr.fd != nil
+//@     decreases len(ttr.metadataBuf) - int(id)
 //@   site call ttr.readTagTreeChunk #1:
 //@     assert [one-chunk-per-table-entry-read-at-its-own-offsets] int(id) == 16 * ghost(0, "ttEntries") + 12 && arg1 == le32(ttr.metadataBuf[16*ghost(0, "ttEntries")+8:]) && arg2 == le32(ttr.metadataBuf[16*ghost(0, "ttEntries")+12:])
 //@   ensures [every-complete-entry-of-the-table-was-visited] implies(result == nil, 16 * ghost(0, "ttEntries") + 16 > len(ttr.metadataBuf))
